@@ -25,6 +25,8 @@ def _jobs(tier):
         jobs.append(dict(sub="simple", count=n // 2, fix=dict(k=k), split=split))
         jobs.append(dict(sub="precomp_buffers", count=max(200, n // 8) if k <= 12 else max(12, n // 8), fix=dict(k=k)))
     jobs.append(dict(sub="leaf", count=120000 * mult, split=4 * (1 if tier == "quick" else 4)))
+    for k in range(0, 13):  # the table-free recursive implementations (exported; the oracles of the library's own tests)
+        jobs.append(dict(sub="naive", count=max(150, _COUNT[k] // 8) * mult, fix=dict(k=k)))
     return jobs
 
 
@@ -36,7 +38,8 @@ def _required():
     req += ["simple:%s_%s_simple" % (lay, d) for lay in ("reim", "cplx") for d in ("fft", "ifft")]
     req += ["fam:" + f for f in ("impulse", "constant", "resonant", "dynrange", "random")]
     req += ["simple:after-other-dimension", "scale:2^-1018..2^-960", "scale:2^960..2^1024"]
-    req += ["entry:precomp_buffer", "pbuf:reim", "pbuf:cplx"] + ["pbuf:k%d" % k for k in range(0, 13)]
+    req += ["entry:naive"] + ["impl:" + n for n in ("reim_naive_fft", "reim_naive_ifft", "cplx_fft_naive", "cplx_ifft_naive")]
+    req += ["entry:precomp_buffer", "pbuf:reim", "pbuf:cplx"] + ["pbuf:k%d" % k for k in range(0, 17)]
     # every implementation at every size at which the library's dispatcher can select it
     for k in range(0, 17):
         for i in _IMPLS:
